@@ -167,7 +167,8 @@ def simulated_behaviours(ctx, big, num):
             part = part.strip()
             if part and " = " in part:
                 name, _, val = part.partition(" = ")
-                st[name.strip()] = tlc.parse_value(val)
+                if name.strip() in ("table", "config", "order"):
+                    st[name.strip()] = tlc.parse_value(val)
         if st.get("order"):
             out.append((st["table"], st["config"], st["order"]))
     return out
